@@ -321,6 +321,110 @@ def props_batch_activate(E, res):
     return P
 
 
+# ---- sector_content_changed (activation through the miner's ProveCommitSectors3 / replica-update notification) -------------
+
+def run_content_changed(shape):
+    """shape: number of pieces per sector"""
+    def run(E):
+        rt, rtref = new_rt(E)
+        rt.state = LazyV('st', 'State')
+        E.ctx.env['lazy_vec_lens'] = [0, 1]
+        E.ctx.env['decode_always_ok'] = True          # piece payloads that do not decode to a deal id are skipped (first `continue`)
+        ST, DPF, DSF = F()
+
+        def hook(E2, m, kt, val):
+            if m.base == 'map(st.%d)' % ST['proposals']:
+                E2.ctx.assume(z3.And(fget(E2, val, DPF['client'], ADDR).proto == 0, fget(E2, val, DPF['provider'], ADDR).proto == 0))
+            return None
+        E.ctx.env['map_value_hook'] = hook
+        ids, pieces, sectors = [], [], []
+        for i, n in enumerate(shape):
+            row, prow = [], []
+            for j in range(n):
+                d = E.materialize('u64', 's%d.deal%d' % (i, j))
+                pc = StructV('ext::miner::PieceChange', {0: E.materialize(CID, 's%d.piece%d.data' % (i, j)),
+                                                         1: StructV('fvm_shared::piece::PaddedPieceSize', {0: E.materialize('u64', 's%d.piece%d.size' % (i, j))}),
+                                                         2: BlockV(d)})
+                row.append(d.v)
+                prow.append(pc)
+            ids.append(row)
+            pieces.append(prow)
+            mce = E.materialize('i64', 's%d.min_commitment' % i)
+            sectors.append(StructV('ext::miner::SectorChanges', {0: E.materialize('u64', 's%d.number' % i), 1: mce, 2: VecV(prow, 'Vec<PieceChange>')}))
+        params = StructV('ext::miner::SectorContentChangedParams', {0: VecV(sectors, 'Vec<SectorChanges>')})
+        E.ctx.env.update(dict(ids=ids, pieces=pieces, sectors=sectors))
+        fn = find_fn(E, MARKET, 'sector_content_changed')
+        return E.run_function(fn, [rtref, params]), rt
+    return run
+
+
+def props_content_changed(E, res):
+    env = res.ctx.env
+    ctx = res.ctx
+    rt = env['rt']
+    if res.kind != 'return':
+        return [('no panic (%s)' % str(res.info)[:60], False)]
+    if is_err(res.value):
+        return [('a failed notification commits nothing', rt.commits == 0)]
+    ST, DPF, DSF = F()
+    r = E.deref(res.value.fields[('Ok', 0)])
+    srets = E.deref(fget(E, r, 0, 'Vec<SectorReturn>')).items
+    ids = env['ids']
+    P = [('only a miner actor notifies sector content', rt.caller_type == ACTOR_TYPES['Miner']),
+         ('one answer per sector and per piece', len(srets) == len(ids))]
+    accepted = []
+    for i, sr in enumerate(srets):
+        prs = E.deref(fget(E, E.deref(sr), 0, 'Vec<PieceReturn>')).items
+        P.append(('one answer per piece', len(prs) == len(ids[i])))
+        for j, pr in enumerate(prs):
+            acc = E.deref(fget(E, E.deref(pr), 0, 'bool'))
+            if acc is True or (is_sym(acc) and implied(ctx, acc)):
+                accepted.append((i, j, ids[i][j]))
+            elif not (acc is False or (is_sym(acc) and implied(ctx, z3.Not(acc)))):
+                P.append(('oracle-precondition: acceptance decided on this path', False))
+    for a in range(len(accepted)):
+        for b in range(a + 1, len(accepted)):
+            P.append(('no deal is activated twice in one notification', accepted[a][2] != accepted[b][2]))
+    sm = heap_get(E, fget(E, rt.state, ST['states'], CID))
+    for (i, j, d) in accepted:
+        kt = ('int', d)
+        present, prop = base_lookup(E, 'map(st.%d)' % ST['proposals'], kt)
+        P.append(('an activated deal was published (proposal on record)', present is True))
+        sb, _ = base_lookup(E, 'map(st.%d)' % ST['states'], kt)
+        P.append(('an activated deal had not been activated before', sb is False))
+        if present is True:
+            prop = E.deref(prop)
+            mce = zv(env['sectors'][i].fields[1])
+            pc = env['pieces'][i][j]
+            P.append(("activated by the deal's own provider", addr_eq(fget(E, prop, DPF['provider'], ADDR), rt.caller)))
+            P.append(('activated no later than the start epoch', rt.epoch <= fget(E, prop, DPF['start_epoch'], 'i64').v))
+            P.append(('the sector is committed at least until the deal ends', fget(E, prop, DPF['end_epoch'], 'i64').v <= mce))
+            P.append(('the piece notified is the piece of the deal (cid and size)',
+                      b_and(deep_eq(E, fget(E, prop, DPF['piece_cid'], CID), pc.fields[0]),
+                            fget(E, fget(E, prop, DPF['piece_size'], 'PaddedPieceSize'), 0, 'u64').v == zv(E.deref(pc.fields[1]).fields[0]))))
+        if isinstance(sm, MapM):
+            fp, fv = final_lookup(E, sm, kt)
+            P.append(('a deal state is recorded for the activated deal', fp is True))
+            if fp is True:
+                fv = E.deref(fv)
+                P.append(('activation epoch = current epoch; never settled, never slashed',
+                          z3.And(fget(E, fv, DSF['sector_start_epoch'], 'i64').v == rt.epoch, fget(E, fv, DSF['last_updated_epoch'], 'i64').v == -1,
+                                 fget(E, fv, DSF['slash_epoch'], 'i64').v == -1)))
+        else:
+            P.append(('deal states table written', False))
+    # pieces not accepted gain no state (unless the same deal id was accepted elsewhere)
+    if isinstance(sm, MapM):
+        for i, row in enumerate(ids):
+            for j, d in enumerate(row):
+                if (i, j, d) in accepted:
+                    continue
+                fp, _ = final_lookup(E, sm, ('int', d))
+                sb, _ = base_lookup(E, 'map(st.%d)' % ST['states'], ('int', d))
+                if fp is True and sb is not True:
+                    P.append(('a rejected piece activates nothing', any_of([d == x for (_, _, x) in accepted])))
+    return P
+
+
 def bool_of(v):
     if isinstance(v, bool):
         return v
@@ -342,6 +446,11 @@ def build(tier):
                    descr='each deal activated at most once per batch, only published + never-activated deals, by their provider, by the start epoch, in a sector that outlives them; state recorded',
                    bounds='sectors with %s deal ids (all ids symbolic, may coincide); compute_cid = false; market tables arbitrary' % (sh,), max_paths=100000)
         for sh in ([[1], [2], [3], [1, 1]] if tier == 'quick' else [[1], [2], [3], [1, 1], [2, 1], [1, 2]])
+    ] + [
+        Obligation('market.sector_content_changed[pieces per sector %s]' % ','.join(map(str, sh)), run_content_changed(sh), props_content_changed,
+                   descr='activation through the sector-content notification: each deal at most once, only published + never-activated deals, by their provider, by the start epoch, committed until the deal ends, piece cid and size matching; state recorded; rejected pieces activate nothing',
+                   bounds='sectors with %s piece(s) (deal ids symbolic, may coincide); payloads decode to deal ids; market tables arbitrary' % (sh,), max_paths=200000)
+        for sh in ([[1], [2], [1, 1]] if tier == 'quick' else [[1], [2], [3], [1, 1], [2, 1]])
     ] + [
         Obligation('market.validate_deal_can_activate', run_can_activate, props_can_activate,
                    descr='activation gate = provider match, epoch <= start, end <= sector expiry', bounds='all fields symbolic', max_paths=200, expect_ok=False),
